@@ -12,7 +12,10 @@ class Fn:
     canary            : verify once more with `ensures false` appended; that run must fail in this function
     sig_subst         : list of (old, new) literal substitutions on the *signature* only (signature abstraction, logged)
     external_body     : keep only the signature+contract; body replaced by unimplemented!() (assumed contract, listed)
+    rules             : opt-in rewrite rules for this function only, set after construction (`fn.rules = ('R18',)`);
+                        R18 = `async fn` -> `fn`, `EXPR.await` -> `EXPR` (extract.r18_sig / r18_await)
     """
+    rules = ()
 
     def __init__(self, file, scope, name, requires=(), ensures=(), splices=(), props=(), canary=False,
                  sig_subst=(), body_subst=(), external_body=False, decreases=None, ret_name='r', attrs=(), emit_name=None,
@@ -82,6 +85,8 @@ class Group:
 
 
 class Unit:
+    cfg_features = ()      # opt-in: features evaluated as ON in #[cfg(feature = ..)] for this unit only (`unit.cfg_features = {'async-io'}`)
+
     def __init__(self, name, items, preludes=(), generic_tags=None, file_attrs=(), notes=''):
         self.name = name
         self.items = list(items)
